@@ -612,6 +612,15 @@ def check_rand_stab(tn, inp):
             D = np.asarray(Y[k])[:, p, :] - np.eye(rs[k], rs[k + 1])
             if np.abs(D).max(initial=0) > 8 * noise:
                 return dict(what='rand_stab: core slice is not the rectangular identity + noise', got=[k, p, D.tolist()])
+    # "perturbed by the requested noise": the perturbation is really there (lower bound) - with at least 100 perturbed entries
+    # the sample deviation of N(0, noise) draws lies in [noise/2, 2 noise] except with probability < 1e-20
+    if noise > 0:
+        dev = np.concatenate([(np.asarray(Y[k]) - np.eye(rs[k], rs[k + 1])[:, None, :]).reshape(-1) for k in range(d)])
+        if dev.size >= 100:
+            sd = float(np.sqrt(np.mean(dev ** 2)))
+            if not (0.5 * noise <= sd <= 2 * noise):
+                return dict(what='rand_stab: the cores are not perturbed by the requested noise (deviation from the rectangular '
+                                 'identities has the wrong size)', got=sd, expected=noise)
     if np.prod([float(k) for k in ns]) <= 1e5:
         A = _full(Y)
     else:       # large d: sampled entries
